@@ -5,6 +5,7 @@
 -/
 import OrasModel.Proofs.Copy
 import OrasModel.Gen.Facts
+import OrasModel.Model.CopyRoot
 namespace Oras.Props.C01
 open Oras
 
@@ -91,5 +92,39 @@ example :
     (run? c (CopySt.init []) tr).isSome = true ∧
     ((run? c (CopySt.init []) tr).map fun s => [0, 1, 2, 3].all (present c s)) = some true := by
   decide
+
+/-! ### Copy tags the root -/
+
+/-- **The root is tagged exactly once on every successful `Copy`**, whichever of the four
+    paths it takes (destination tags / pushes by reference; root copied / already present):
+    exactly one tagging call is made, it comes after the root's content is in the
+    destination (already present, pushed just before, or carried by `PushReference` itself),
+    and the reference used is the destination reference, or the source reference when that
+    was left blank. -/
+theorem c01_root_tagged (i : RootIn) :
+    ((rootFlow i).filter RootEv.tags).length = 1 ∧
+    (i.present = true ∨ (rootFlow i).contains .pushReference = true ∨
+      ∃ pre post, rootFlow i = pre ++ [.push, .tag] ++ post) ∧
+    (∀ src dst : String, (dst ≠ "" → effectiveRef src dst = dst) ∧ (dst = "" → effectiveRef src dst = src)) := by
+  refine ⟨?_, ?_, ?_⟩
+  · cases i with | mk r p => cases r <;> cases p <;> rfl
+  · cases i with
+    | mk r p =>
+      cases r <;> cases p
+      · exact Or.inr (Or.inr ⟨[.exists_, .userPreCopy], [.userPostCopy], rfl⟩)
+      · exact Or.inl rfl
+      · exact Or.inr (Or.inl rfl)
+      · exact Or.inl rfl
+  · intro src dst
+    unfold effectiveRef
+    constructor
+    · intro h; simp [h]
+    · intro h; simp [h]
+
+/-- The caller's `PostCopy` for the root runs after the root is tagged (it can rely on the
+    reference resolving), and `OnCopySkipped` before it. -/
+theorem c01_root_hook_order :
+    rootFlow ⟨false, false⟩ = [.exists_, .userPreCopy, .push, .tag, .userPostCopy] ∧
+    rootFlow ⟨false, true⟩ = [.exists_, .userSkipped, .tag] := ⟨rfl, rfl⟩
 
 end Oras.Props.C01
